@@ -8,6 +8,7 @@ R4  registers are only created from the running counter, which is bumped on the 
 R5  every conversion entry point goes through the one allocator
 R6  a register is reused / freed only when its wire was removed from the wire map
 R1b every operand field of every gate kind of circuit::Wire is recorded in last_use_map with the index of the reading gate
+R8  every xor / and / not wire of the SSA circuit is translated into one instruction on every path of the conversion loop
 R7  find_out_reg removes an operand from wire_map only on the edge `last_used[operand] == gate_id`
 """
 from .. import mir
@@ -129,6 +130,38 @@ def rule_r7(ctx):
         else:
             res.bad(Finding("R7", body.id, "operand released although a later gate still reads it",
                             "wire_map.remove of an operand is not guarded by `last_used[that operand] == gate_id`: its register is reused while the wire is still live", t["sp"]))
+    return res
+
+
+def rule_r8(ctx):
+    """Every gate of the SSA circuit becomes one instruction (and the AND count counts every AND gate)."""
+    res = RuleResult("R8", "every xor / and / not wire is translated: no iteration of the conversion loop skips the instruction")
+    body = ctx.body(CONV)
+    sw, info = _wire_ap(body)
+    loops = [lp for lp in body.loops() if sw in lp["body"]]
+    if not loops:
+        raise AnchorMissing("R8: the conversion does not switch over Wire inside a loop")
+    lp = min(loops, key=lambda l: len(l["body"]))
+    pushes = {b for b in lp["body"] if body.term(b) and body.term(b)["k"] == "call" and mir.last_seg(mir.callee(body.term(b)) or "") == "push"
+              and any(p and p[-1] == "insts" for (r, p) in body.trace_operand(body.term(b)["args"][0]))}
+    maps = {b for b in lp["body"] if body.term(b) and body.term(b)["k"] == "call" and mir.last_seg(mir.callee(body.term(b)) or "") == "insert"
+            and any(p and p[-1] == "wire_map" for (r, p) in body.trace_operand(body.term(b)["args"][0]))}
+    if not pushes or not maps:
+        raise AnchorMissing("R8: the conversion loop does not push instructions / record the wire's register")
+    latches = [b for b in lp["body"] if lp["header"] in body.succs(b)]
+    for v in ("Xor", "And", "Not"):
+        succ = body.pruned_succ({info[0]: v})
+
+        def inloop(b, succ=succ):
+            return [x for x in succ(b) if x in lp["body"] and not body.blocks[x]["cleanup"]]
+        w1 = body.path(lp["header"], latches, blocked=pushes, succ=inloop)
+        w2 = body.path(lp["header"], latches, blocked=maps, succ=inloop)
+        if w1 or w2:
+            res.bad(Finding("R8", CONV, "%s wires can be skipped by the conversion" % v,
+                            "an iteration for a %s wire can end without pushing an instruction / recording its register (blocks %s): the register circuit has fewer operations than the SSA circuit "
+                            "(and a later reader of the wire has no register to read)" % (v, (w1 or w2)[:10]), body.term(sw)["sp"]))
+        else:
+            res.ok({"wire": v, "verdict": "every iteration pushes one instruction and records the wire's register"})
     return res
 
 
@@ -353,6 +386,6 @@ def rule_r5(ctx):
 
 def run(ctx):
     out = []
-    for r in ctx.run_rules([rule_r1, rule_r1b, rule_r2_r3, rule_r4, rule_r5, rule_r6, rule_r7]):
+    for r in ctx.run_rules([rule_r1, rule_r1b, rule_r2_r3, rule_r4, rule_r5, rule_r6, rule_r7, rule_r8]):
         out.extend(r if isinstance(r, list) else [r])
     return out
